@@ -18,6 +18,8 @@ are known finding F87), so there is no model answer and no theorem for them; the
 `shape=1` (rt.ShapeEqual pairs the entries by the shape of the key's pointee), `alias=0` (the memory reached through
 the keys takes part in the overlap test) and `src=1`. reflect.DeepEqual is not consulted there: a correct copy has fresh
 key pointers and is not DeepEqual to its source.
+Refusal cases (vlib/data/copyprobe, unmodelled): imported structs with an unexported field of an unexported type are
+refused by the unchanged generator (nothing to demand; counted); a generator that accepts them must copy the hidden field.
 deepcopyx = calls outside the precondition (nil source; top-level map into a populated map that shares keys with the
 source): correspondence only."""
 import re
@@ -144,6 +146,59 @@ def keyed_ops(rep, info):
     return n
 
 
+def refusal_probe(rep):
+    """Imported structs with an unexported field of an UNEXPORTED type of their package (a type that cannot be written in
+    the generated file): a fixed program per case (vlib/data/copyprobe). goderive may refuse the type with a message (the
+    unchanged tree does, F133): then there is no copy function and nothing to demand. If it accepts, the copy functions are
+    compiled and run, and the hidden field, set through the package's own functions, must come out equal through the
+    exported accessors. Unmodelled (no Lean value has a field the generator cannot spell): judged on the emitted code."""
+    import os
+    import shutil
+    import tempfile
+    data = os.path.join(common.VERIF, "vlib", "data", "copyprobe")
+    _, binp = common.build_goderive()
+    out = {"refused": 0, "accepted": 0, "cases_run": 0, "messages": []}
+    for case in ("a", "b"):
+        d = tempfile.mkdtemp(prefix="verif-c05-probe-")
+        try:
+            for sub in ("wire", case):
+                os.makedirs(os.path.join(d, sub))
+                for f in os.listdir(os.path.join(data, sub)):
+                    shutil.copyfile(os.path.join(data, sub, f), os.path.join(d, sub, f[:-4]))
+            with open(os.path.join(d, "go.mod"), "w") as f:
+                f.write("module copyprobe\n\ngo 1.24\n")
+            rc, err, to = common.run_goderive(binp, d, ["./" + case], timeout=120, mem_gb=4)
+            rep.cov["programs"] += 1
+            srcs = {os.path.join(sub, f): open(os.path.join(d, sub, f)).read()
+                    for sub in ("wire", case) for f in os.listdir(os.path.join(d, sub)) if f.endswith(".go") and f != "derived.gen.go"}
+            if to:
+                rep.violation("goderive timed out on the copy probe " + case, {"files": srcs}, True)
+                continue
+            if rc != 0:
+                # a refusal: no generated code to judge (whether the message is a good one is C09's business)
+                out["refused"] += 1
+                out["messages"].append(err.strip()[-200:])
+                continue
+            out["accepted"] += 1
+            p = common.sh(["go", "run", "./" + case], cwd=d, timeout=300)
+            txt = p.stdout + p.stderr
+            lines = [l for l in p.stdout.splitlines() if l.startswith(("ok ", "FAIL "))]
+            fails = [l for l in lines if l.startswith("FAIL ")]
+            out["cases_run"] += len(lines)
+            rep.cov["evaluations"] += len(lines)
+            gen = open(os.path.join(d, case, "derived.gen.go")).read() if os.path.exists(os.path.join(d, case, "derived.gen.go")) else ""
+            if fails:
+                rep.violation("copy of an imported struct that has an unexported field of an unexported type is not equal to the source "
+                              "(goderive accepted the type): " + "; ".join(fails)[:600],
+                              {"files": srcs, "derived": gen[:8000], "output": txt[:3000], "cmd": "goderive ./%s && go run ./%s" % (case, case)}, True)
+            elif p.returncode != 0 or not lines:
+                rep.violation("the copy probe %s does not build or run with the emitted code: %s" % (case, txt[:600]),
+                              {"files": srcs, "derived": gen[:8000], "output": txt[:3000]}, True)
+        finally:
+            shutil.rmtree(d, ignore_errors=True)
+    return out
+
+
 def run(rep):
     rep.cov["rule"] = ("every pointer / slice / map type of the corpus that plugin/deepcopy supports x every pool source (and "
                        "single-position mutations) x prior destinations (pointer to zero and to populated values, also with NaN keys "
@@ -174,6 +229,9 @@ def run(rep):
                                     "shape=1, alias=0 (key pointees included), src=1"}
     # the corpus generator is expected to produce each of these kinds for every seed: an empty class means the check
     # did not test what it claims
+    rep.cov["unmodelled"]["unwritable_field_probe"] = dict(refusal_probe(rep), why=(
+        "imported structs with an unexported field of an unexported type (wire.Cursor, bytes.Buffer): refused by goderive = "
+        "nothing to demand (counted as refusal cases); accepted = the compiled copy functions must reproduce the hidden field"))
     if not rep.cov["unmodelled"]["pointer_keyed_map_ops"] and not rep.violations:
         raise common.CheckError("the corpus holds no op on a pointer-keyed map")
     for k in ("nan_key_sources", "nan_leaf_sources", "ptr_to_ptr_below_top_sources", "populated_prior_map_ops", "accepted_by_shape_only"):
